@@ -397,6 +397,10 @@ var vpTemplates = []string{
 	/* 28 */ "local \x01 = 0\nlocal t = { f = function(\x02) return \x03 end, h = function(\x04) return \x05 end }\n",
 	/* 29 */ "local \x01 = 0\nwhile k do local \x02 = 1 g = \x02 end while k do local \x03 = 2 g = \x04 end\n",
 	/* 30 */ "local \x01 <const>, \x02 <const> = 1, 2\ng = \x02\nh = \x01\n",
+	// assignments with more targets than expressions (the surplus targets get nil or the call's extra results)
+	/* 31 */ "local \x01, \x02 = 1, 2\n\x01, \x02 = f()\ng = \x01 + \x02\n",
+	/* 32 */ "local \x01\nlocal \x02\nfunction g(...)\n \x01, \x02 = ...\nend\n\x01, \x02 = nil\n",
+	/* 33 */ "\x01 = 1\n\x02 = 2\n\x01, \x02 = \x03\nh = \x02\n",
 }
 
 // vpInstantiate fills the holes of template t with symbolic names; tag prefixes the variable names.
